@@ -200,6 +200,7 @@ Ideal(alg, p, box) ==
 (* (status2 = -1 when the first call failed).                              *)
 (* Returns the SET of failed clause names, each prefixed by its property.  *)
 (***************************************************************************)
+OracleCap == 6000
 CallVerdicts(c) ==
   LET alg == c.alg
       p   == c.params
@@ -213,6 +214,14 @@ CallVerdicts(c) ==
   ELSE IF c.status = -8 THEN {"C16:index-error"}
   ELSE IF c.status = -7 THEN {"C05:raised"}
   ELSE IF c.status \notin {0, 1, 2} THEN {"C05:bad-status"}
+  ELSE IF BoxSize(c.inbox) > OracleCap THEN
+    \* too large for the brute-force oracle (the large-arity corpus of C16): structural clauses only
+    (IF ok /\ ~(SubBox(out, c.inbox)) THEN {"C05:grows"} ELSE {})
+    \cup (IF ok /\ SubBox(out, c.inbox) /\ ~NonEmptyBox(out) THEN {"C05:empty-domain"} ELSE {})
+    \cup (IF ok /\ c.status2 = -9 THEN {"C04:filter-hung-on-own-output"} ELSE {})
+    \cup (IF ok /\ c.status2 = -8 THEN {"C16:index-error-on-own-output"} ELSE {})
+    \cup (IF alg \in HullAlgs /\ ok /\ c.status2 \in {0, 1, 2} /\ (c.status2 = 0 \/ c.outbox2 # out)
+          THEN {"C14:not-idempotent"} ELSE {})
   ELSE
     \* ---- C05 soundness
     (IF ok /\ ~(SubBox(out, c.inbox)) THEN {"C05:grows"} ELSE {})
